@@ -423,31 +423,51 @@ def startPut (a : Actor) (e : PutEntry) (closest : List Node) (now : Nat) : Acto
   let a := sendPuts { a with sock := sock } e.spec (sent.zip (q.inflight.drop e.q.inflight.length))
   (a, { e with q := q }, r)
 
+def newPutEntry (spec : PutSpec) (extra : List Node) : PutEntry :=
+  { q := { isMutable := match spec with
+                        | .putMutable .. => true
+                        | _ => false,
+           extra := extra },
+    spec := spec }
+
+/-- `put_queries.insert(target, query)` -/
+def registerPut (a : Actor) (target : Id) (entry : PutEntry) : Actor :=
+  { a with core := { a.core with puts := alSet a.core.puts target entry } }
+
+/-- the cached branch of `Actor::put`: store at once on the cached closest nodes -/
+def putFromCache (a : Actor) (spec : PutSpec) (extra : List Node) (closest : List Node) (now : Nat) :
+    Actor × Except PutErr Unit :=
+  match (startPut a (newPutEntry spec extra) closest now).2.2 with
+  | .error e => ((startPut a (newPutEntry spec extra) closest now).1, .error e)
+  | .ok () =>
+    (registerPut (startPut a (newPutEntry spec extra) closest now).1 spec.target
+      (startPut a (newPutEntry spec extra) closest now).2.1, .ok ())
+
+/-- `Actor::put` after the concurrency check: from the cache if it is fresh, else after a lookup -/
+def putAfterCheck (a : Actor) (spec : PutSpec) (extra : List Node) (now : Nat) : Actor × Except PutErr Unit :=
+  match (getCachedClosestNodes a.core spec.target now).2 with
+  | some closest =>
+    putFromCache { a with core := (getCachedClosestNodes a.core spec.target now).1 } spec extra closest now
+  | none =>
+    (registerPut
+      (Actor.get { a with core := (getCachedClosestNodes a.core spec.target now).1 } (GetKind.ofPut spec) spec.target [] now).1
+      spec.target (newPutEntry spec extra), .ok ())
+
 /-- `Actor::put` -/
 def put (a : Actor) (spec : PutSpec) (extra : List Node) (now : Nat) : Actor × Except PutErr Unit :=
-  let (core, err) := checkConcurrency a.core spec
-  let a := { a with core := core }
-  match err with
-  | some e => (a, .error e)
-  | none =>
-    let isMut := match spec with
-      | .putMutable .. => true
-      | _ => false
-    let entry : PutEntry := { q := { isMutable := isMut, extra := extra }, spec := spec }
-    let target := spec.target
-    let (core, cached) := getCachedClosestNodes a.core target now
-    let a := { a with core := core }
-    match cached with
-    | some closest =>
-      let (a, entry, r) := startPut a entry closest now
-      (match r with
-       | .error e => (a, .error e)
-       | .ok () => ({ a with core := { a.core with puts := alSet a.core.puts target entry } }, .ok ()))
-    | none =>
-      let (a, _) := a.get (GetKind.ofPut spec) target [] now
-      ({ a with core := { a.core with puts := alSet a.core.puts target entry } }, .ok ())
+  match (checkConcurrency a.core spec).2 with
+  | some e => ({ a with core := (checkConcurrency a.core spec).1 }, .error e)
+  | none => putAfterCheck { a with core := (checkConcurrency a.core spec).1 } spec extra now
 
 /-! #### incoming requests -/
+
+/-- the first node of a network adds every find_node requester; a node with a bootstrap list only
+    those that support signed peers, and only to that table -/
+def addRequester (c : Core) (node : Node) (sup : Bool) (now : Nat) : Core :=
+  if c.bootstrap.isEmpty then
+    if sup then { c with rt := (c.rt.add node now).1, srt := (c.srt.add node now).1 }
+    else { c with rt := (c.rt.add node now).1 }
+  else if sup then { c with srt := (c.srt.add node now).1 } else c
 
 /-- `maybe_add_node_from_request` -/
 def maybeAddNodeFromRequest (c : Core) (src : Addr) (version : Option Bytes) (ro : Bool) (req : Request)
@@ -455,12 +475,7 @@ def maybeAddNodeFromRequest (c : Core) (src : Addr) (version : Option Bytes) (ro
   if c.serverMode && !ro then
     match req.rtype with
     | .findNode target =>
-      let node : Node := { id := target, addr := src, lastSeen := now }
-      let sup := supportsSignedPeers version
-      if c.bootstrap.isEmpty then
-        let c := { c with rt := (c.rt.add node now).1 }
-        if sup then { c with srt := (c.srt.add node now).1 } else c
-      else if sup then { c with srt := (c.srt.add node now).1 } else c
+      addRequester c { id := target, addr := src, lastSeen := now } (supportsSignedPeers version) now
     | _ => c
   else c
 
@@ -670,16 +685,16 @@ def updateAddressVotes (c : Core) (q : IterQuery) : Core × Option Addr :=
               else (c, none)
   | none => (c, none)
 
+/-- one table's share of `check_nodes_to_ping_and_remove_stale_nodes`: stale nodes are removed, the
+    others are pinged unless heard from in the last 10 seconds -/
+def pruneAndPing (rt : RoutingTable) (now : Nat) : RoutingTable × List Addr :=
+  ((rt.nodes.filter (fun n => n.isStale now)).foldl (fun t n => t.remove n.id) rt,
+   (rt.nodes.filter fun n => !n.isStale now && n.shouldPing now).map (·.addr))
+
 /-- `check_nodes_to_ping_and_remove_stale_nodes` -/
 def pingRound (c : Core) (now : Nat) : Core × List Addr :=
-  let one (rt : RoutingTable) : RoutingTable × List Addr :=
-    let ns := rt.nodes
-    let stale := ns.filter (fun n => n.isStale now)
-    let toPing := (ns.filter fun n => !n.isStale now && n.shouldPing now).map (·.addr)
-    (stale.foldl (fun t n => t.remove n.id) rt, toPing)
-  let (rt, p1) := one c.rt
-  let (srt, p2) := one c.srt
-  ({ c with rt := rt, srt := srt }, p1 ++ p2)
+  ({ c with rt := (pruneAndPing c.rt now).1, srt := (pruneAndPing c.srt now).1 },
+   (pruneAndPing c.rt now).2 ++ (pruneAndPing c.srt now).2)
 
 /-- bootstrap again whenever the routing table is empty -/
 def bootstrapIfEmpty (a : Actor) (now : Nat) : Actor := if a.core.rt.isEmpty then a.populate now else a
@@ -731,23 +746,30 @@ def recvPhase (a : Actor) (now : Nat) (dgram : Option (Message × Addr)) : Actor
       | none => a.rtt
     ({ a with sock := { sock with timeout := rtt.timeout }, rtt := rtt }, if up then some (m, src) else none)
 
+/-- send what `handle_request` answered, if anything -/
+def sendReply (a : Actor) (src : Addr) (tid : UInt32) (r : Option Reply) : Actor :=
+  match r with
+  | some (.response r) => a.reply src tid (.response r)
+  | some (.error code) => a.reply src tid (.error { code, description := [] })
+  | none => a
+
+/-- the request arm of `handle_incoming_message` -/
+def handleIncomingRequest (a : Actor) (env : Env) (m : Message) (src : Addr) (req : Request) : Actor :=
+  if (handleRequest a.core env src m.readOnly m.version req).2.2 then
+    (sendReply { a with core := (handleRequest a.core env src m.readOnly m.version req).1 } src m.tid
+      (handleRequest a.core env src m.readOnly m.version req).2.1).populate env.now
+  else
+    sendReply { a with core := (handleRequest a.core env src m.readOnly m.version req).1 } src m.tid
+      (handleRequest a.core env src m.readOnly m.version req).2.1
+
 /-- `handle_incoming_message` -/
 def handleIncoming (a : Actor) (env : Env) (handed : Option (Message × Addr)) : Actor × Option (Id × Value) :=
   match handed with
   | none => (a, none)
   | some (m, src) =>
     (match m.mtype with
-     | .request req =>
-       let (core, r, repopulate) := handleRequest a.core env src m.readOnly m.version req
-       let a := { a with core := core }
-       let a := match r with
-         | some (.response r) => a.reply src m.tid (.response r)
-         | some (.error code) => a.reply src m.tid (.error { code, description := [] })
-         | none => a
-       (if repopulate then a.populate env.now else a, none)
-     | _ =>
-       let (core, v) := handleResponse a.core env src m
-       ({ a with core := core }, v))
+     | .request req => (a.handleIncomingRequest env m src req, none)
+     | _ => ({ a with core := (handleResponse a.core env src m).1 }, (handleResponse a.core env src m).2))
 
 /-- forward a new value to the callers waiting on that target -/
 def forwardValue (a : Actor) (newValue : Option (Id × Value)) : Actor :=
@@ -854,50 +876,72 @@ def releasePutOne (a : Actor) (d : Id × Option PutErr) : Actor :=
 /-- answer the callers of finished puts -/
 def releasePutCallers (a : Actor) (donePuts : List (Id × Option PutErr)) : Actor := donePuts.foldl releasePutOne a
 
+/-- receive, handle, forward: the first half of the tick -/
+def preDone (a : Actor) (env : Env) (dgram : Option (Message × Addr)) : Actor :=
+  forwardValue
+    (handleIncoming (a.recvPhase env.now dgram).1 env (a.recvPhase env.now dgram).2).1
+    (handleIncoming (a.recvPhase env.now dgram).1 env (a.recvPhase env.now dgram).2).2
+
+def pingOpt (a : Actor) (to : Option Addr) (now : Nat) : Actor :=
+  match to with
+  | some addr => a.ping addr now
+  | none => a
+
+/-- the second half of the tick, after `visit_closest`: finished lookups start the puts waiting on
+    them, finished work is unregistered (and cached), its callers are answered -/
+def finishTick (a : Actor) (now : Nat) (donePuts0 : List (Id × Option PutErr)) : Actor :=
+  releasePutCallers
+    (releaseGetCallers
+      (pingOpt
+        { (startPuts a now (a.doneLookups now) donePuts0).1 with
+          core := (cleanupDone (startPuts a now (a.doneLookups now) donePuts0).1.core (a.doneLookups now)
+                    (startPuts a now (a.doneLookups now) donePuts0).2).1 }
+        (cleanupDone (startPuts a now (a.doneLookups now) donePuts0).1.core (a.doneLookups now)
+          (startPuts a now (a.doneLookups now) donePuts0).2).2 now)
+      (a.doneLookups now))
+    (startPuts a now (a.doneLookups now) donePuts0).2
+
 /-- the part of `tick` after `recv_from` returned -/
 def afterRecv (a : Actor) (env : Env) (dgram : Option (Message × Addr)) : Actor :=
-  let now := env.now
-  let (a, handed) := a.recvPhase now dgram
-  let (a, newValue) := a.handleIncoming env handed
-  let a := a.forwardValue newValue
-  let donePuts := a.checkDonePuts now
-  let a := a.visitClosestAll now
-  let doneIter := a.doneLookups now
-  let (a, donePuts) := a.startPuts now doneIter donePuts
-  let (core, toPing) := cleanupDone a.core doneIter donePuts
-  let a := { a with core := core }
-  let a := match toPing with
-    | some addr => a.ping addr now
-    | none => a
-  (a.releaseGetCallers doneIter).releasePutCallers donePuts
+  finishTick ((a.preDone env dgram).visitClosestAll env.now) env.now ((a.preDone env dgram).checkDonePuts env.now)
 
 def senderCaller : Sender → Nat
   | .closestNodes c | .peers c | .signedPeers c | .mutable c | .immutable c => c
+
+def infoView (a : Actor) : InfoView :=
+  { id := a.id
+    publicAddress := a.core.publicAddress
+    firewalled := a.core.firewalled
+    serverMode := a.core.serverMode
+    rtSize := a.core.rt.size
+    srtSize := a.core.srt.size }
+
+def parkPutCaller (a : Actor) (target : Id) (c : Nat) : Actor :=
+  { a with putSenders := alSet a.putSenders target ((alGet a.putSenders target).getD [] ++ [c]) }
+
+def parkGetCaller (a : Actor) (target : Id) (s : Sender) : Actor :=
+  { a with getSenders := alSet a.getSenders target ((alGet a.getSenders target).getD [] ++ [s]) }
+
+/-- the `ActorMessage::Put` arm -/
+def pickupPut (a : Actor) (env : Env) (c : Nat) (spec : PutSpec) (extra : List Node) : Actor :=
+  match (a.put spec extra env.now).2 with
+  | .ok () => parkPutCaller (a.put spec extra env.now).1 spec.target c
+  | .error e => { (a.put spec extra env.now).1 with events := (a.put spec extra env.now).1.events ++ [.putResult c (.error e)] }
+
+/-- the `ActorMessage::Get` arm -/
+def pickupGet (a : Actor) (env : Env) (kind : GetKind) (target : Id) (sender : Sender) : Actor :=
+  parkGetCaller
+    { (a.get kind target [] env.now).1 with
+      events := (a.get kind target [] env.now).1.events ++ (a.get kind target [] env.now).2.filterMap (fun v => sendTo sender v) }
+    target sender
 
 /-- the message pick-up of `run`'s loop (one message per iteration) -/
 def pickup (a : Actor) (env : Env) (msg : Option ApiMsg) : Actor :=
   match msg with
   | none | some .noop => a
-  | some (.info c) =>
-    let view : InfoView :=
-      { id := a.id
-        publicAddress := a.core.publicAddress
-        firewalled := a.core.firewalled
-        serverMode := a.core.serverMode
-        rtSize := a.core.rt.size
-        srtSize := a.core.srt.size }
-    { a with events := a.events ++ [.info c view] }
-  | some (.put c spec extra) =>
-    let (a, r) := a.put spec extra env.now
-    (match r with
-     | .ok () =>
-       let target := spec.target
-       { a with putSenders := alSet a.putSenders target ((alGet a.putSenders target).getD [] ++ [c]) }
-     | .error e => { a with events := a.events ++ [.putResult c (.error e)] })
-  | some (.get kind target sender) =>
-    let (a, responses) := a.get kind target [] env.now
-    let a := { a with events := a.events ++ responses.filterMap (fun v => sendTo sender v) }
-    { a with getSenders := alSet a.getSenders target ((alGet a.getSenders target).getD [] ++ [sender]) }
+  | some (.info c) => { a with events := a.events ++ [.info c a.infoView] }
+  | some (.put c spec extra) => a.pickupPut env c spec extra
+  | some (.get kind target sender) => a.pickupGet env kind target sender
 
 /-- one iteration of the actor loop as the scheduler sees it: the rest of the current tick, the
     message pick-up, and the maintenance at the head of the next tick -/
@@ -905,6 +949,11 @@ def step (a : Actor) (env : Env) (dgram : Option (Message × Addr)) (msg : Optio
   let a := ((a.afterRecv env dgram).pickup env msg).maintenance env.now
   -- entering `recv_from` of the next tick
   { a with sock := a.sock.cleanup env.now }
+
+/-- the state a message handler of `run`'s loop sees (after the pick-up, before the maintenance of
+    the next tick): this is what `Info` and the verification snapshot report -/
+def observed (a : Actor) (env : Env) (dgram : Option (Message × Addr)) (msg : Option ApiMsg) : Actor :=
+  (a.afterRecv env dgram).pickup env msg
 
 end Actor
 
